@@ -481,6 +481,70 @@ func c16CoordBounds(c *fw.Ctx, idx int) {
 	}
 }
 
+// (c) very large geometries (65,536 .. 1.2 million ordinates, on and next to
+// multiples of 65,536): a copy made in blocks has block boundaries to get wrong
+func c16Huge(c *fw.Ctx, idx int) {
+	r := c.R
+	layout := []geom.Layout{geom.XY, geom.XYZ, geom.XYZM, geom.Layout(5)}[r.Intn(4)]
+	stride := layout.Stride()
+	n := hugeFloats(r, stride)
+	flat := make([]float64, n)
+	for i := range flat {
+		flat[i] = float64(i%9973) + 0.25
+	}
+	var t geom.T
+	kind := r.Intn(4)
+	switch kind {
+	case 0:
+		t = geom.NewLineStringFlat(layout, flat)
+	case 1:
+		t = geom.NewMultiPointFlat(layout, flat)
+	case 2:
+		cut := stride * r.Range(1, n/stride)
+		t = geom.NewPolygonFlat(layout, flat, []int{cut, n})
+	default:
+		a := stride * r.Range(1, n/stride)
+		t = geom.NewMultiPolygonFlat(layout, flat, [][]int{{a}, {}, {n}})
+	}
+	c.SetInput(map[string]any{"type": fmt.Sprintf("%T", t), "layout": layout.String(), "ordinates": n, "ordinate_i": "(i mod 9973) + 0.25"})
+	var cl geom.T
+	if c.Guard("panic", func() {
+		switch x := t.(type) {
+		case *geom.LineString:
+			cl = x.Clone()
+		case *geom.MultiPoint:
+			cl = x.Clone()
+		case *geom.Polygon:
+			cl = x.Clone()
+		case *geom.MultiPolygon:
+			cl = x.Clone()
+		}
+	}) {
+		return
+	}
+	c.Eval(1)
+	c.Count("huge_clones")
+	c.Distinct(fmt.Sprintf("huge/%d/%s/%d", kind, layout, n))
+	if d := snap(t).diff(snap(cl)); d != "" {
+		c.Fail("clone-not-equal", "clone of a geometry of %d ordinates differs from it: %s", n, d)
+		return
+	}
+	// writes to either are not seen through the other
+	cf, of := cl.FlatCoords(), t.FlatCoords()
+	for _, i := range []int{0, n / 2, n - 1, 65535 % n, 65536 % n, (n / 65536) * 65536 % n} {
+		cf[i] = -1
+		if of[i] == -1 {
+			c.Fail("shared-storage", "writing ordinate %d of the clone shows in the original (%d ordinates)", i, n)
+			return
+		}
+		of[i] = -2
+		if cf[i] != -1 {
+			c.Fail("shared-storage", "writing ordinate %d of the original shows in the clone (%d ordinates)", i, n)
+			return
+		}
+	}
+}
+
 func init() {
 	fw.Register(&fw.Monitor{
 		ID:     "C16",
@@ -490,6 +554,7 @@ func init() {
 		Classes: []fw.Class{
 			{Name: "geometries", Quick: 120000, Thorough: 2000000, Run: c16Geoms},
 			{Name: "coord-bounds", Quick: 60000, Thorough: 500000, Run: c16CoordBounds},
+			{Name: "huge", Quick: 48, Thorough: 1200, Chunk: 3, Run: c16Huge},
 		},
 		Require: []string{"storage_spare-capacity", "storage_empty-non-nil", "mut_Push", "mut_write every FlatCoords()[i]", "mut_bump ends", "mut_Reverse", "mut_SetCoords", "mut_TransformInPlace", "mut_Swap with a fresh geometry", "mut_SetSRID", "coord_clones", "bounds_clones", "mut_Bounds.Extend", "mut_Bounds.Set", "mut_Bounds.SetCoords"},
 	})
